@@ -357,3 +357,28 @@ fn n_huge_prototype() {
     for i in 0..30000 { proto.push(Record { name: RecordName::Unknown { namespace: "ext".into(), name: format!("a{i}") }, data_type: RecordDataType::Integer{min:0,max:1} }); }
     let _ = w.add_pointcloud("pc2", proto).is_ok();
 }
+
+#[test]
+fn q_rejected_point_leaves_bounds_untouched() {
+    let mut cur = Cursor::new(Vec::new());
+    {
+        let mut w = E57Writer::new(&mut cur, "g").unwrap();
+        let mut proto = xyz();
+        proto.push(Record { name: RecordName::Intensity, data_type: RecordDataType::Integer { min: 0, max: 15 } });
+        let mut pw = w.add_pointcloud("pc", proto).unwrap();
+        let mut p = pt(1.0); p.push(RecordValue::Integer(3));
+        pw.add_point(p).unwrap();
+        // rejected: intensity out of range, but x/y/z = 100 come first
+        let mut p = pt(100.0); p.push(RecordValue::Integer(99));
+        assert!(pw.add_point(p).is_err());
+        // rejected: type mismatch at the last index
+        let mut p = pt(-100.0); p.push(RecordValue::Single(1.0));
+        assert!(pw.add_point(p).is_err());
+        pw.finalize().unwrap();
+        w.finalize().unwrap();
+    }
+    cur.set_position(0);
+    let r = E57Reader::new(cur).unwrap();
+    let b = r.pointclouds()[0].cartesian_bounds.clone().unwrap();
+    assert_eq!((b.x_min, b.x_max), (Some(1.0), Some(1.0)), "bounds contain values of rejected points");
+}
